@@ -388,8 +388,14 @@ void run_worker(round_ctx& rc, worker& w) {
           r.seen.emplace_back(decode_key(v.get_key()), decode(copy.data(), val.size() <= 16 ? val.size() : 0));
           return r.seen.size() >= lim;  // runaway guard
         };
+        // every scan entry point, each time over the whole key space (so that the projection on every key is a get)
+        auto api = w.prng.below(4);
+        for (const u64 kk : rc.keys) if (kk == ~u64{0}) api = 0;  // scan_range's end bound is exclusive
         r.call = stamp(); lib_enter();
-        rc.db.scan(fn, true);
+        if (api == 0) rc.db.scan(fn, true);
+        else if (api == 1) rc.db.scan(fn, false);
+        else if (api == 2) rc.db.scan_from(u64{0}, fn, true);
+        else rc.db.scan_range(u64{0}, ~u64{0}, fn);
         lib_leave(); r.ret = stamp();
         r.ok = true;
         check_held(w, "scan", 0, true);
